@@ -27,7 +27,9 @@ def parse(obs):
             continue
         if toks[2] == "log":
             kv = dict(t.split("=", 1) for t in toks[4:] if "=" in t)
-            W["logs"][toks[3]] = (int(kv.get("len", "0")), kv.get("root", "-"), [x for x in kv.get("toks", "").split(",") if x])
+            tt = [x for x in kv.get("toks", "").split(",") if x]
+            W["logs"][toks[3]] = (int(kv.get("len", "0")), kv.get("root", "-"), [x.split("@")[0] for x in tt])
+            W.setdefault("logtimes", {})[toks[3]] = [x.split("@")[1] if "@" in x else "0" for x in tt]
         elif toks[2] == "folder":
             rest = o.split(" ", 5)[5] if len(toks) > 5 else ""
             W["folders"].setdefault(toks[3], {})[toks[4]] = rest
